@@ -34,7 +34,7 @@ for try in 1 2 3; do
 done
 TESTS_SUMMARY=$(grep -E "tests passed|tests failed" $OUT/tests.log | tr '\n' ';')
 ( cd $W/demo && timeout 600 bash ./run.sh ) >$OUT/demo_patched.log 2>&1; DEMO_PATCHED=$?
-( cd /verif && VERIF_REPO=$W timeout 1800 ./check $ID --tier quick ) >$OUT/check.log 2>&1; CHECK_RC=$?
+( cd /verif && CO=$(mktemp -d /tmp/confirm_out.XXXXXX) && VERIF_OUT=$CO VERIF_REPO=$W timeout 1800 ./check $ID --tier quick; rc=$?; rm -rf $CO; exit $rc ) >$OUT/check.log 2>&1; CHECK_RC=$?
 KEYS=$(grep -E "^  key=" $OUT/check.log | sed 's/  key=//' | tr '\n' ' ')
 python3 - "$ID" "$NAME" "$NEEDS" "$DEMO_CLEAN" "$BUILD_RC" "$TESTS_RC" "$TESTS_SUMMARY" "$DEMO_PATCHED" "$CHECK_RC" "$KEYS" "$OUT" <<'PY'
 import json,sys
